@@ -1824,8 +1824,21 @@ func (db *DB) verifyWithExecutor(ctx context.Context, exec *syncExecutor) (info 
 			"salt1", salt1,
 			"salt2", salt2)
 
+		// The previous WAL generation must have ended exactly where we stopped
+		// copying. A frame that still carries the previous salts at our last
+		// synced offset means that generation grew (and was checkpointed away)
+		// after our last sync, so frames were missed even though the last
+		// copied frame is still intact.
+		prevEnd := info.offset
 		info.offset = WALHeaderSize
 		info.salt1, info.salt2 = salt1, salt2
+
+		if continued, err := db.walFrameHasSalt(prevEnd, dec.Header().WALSalt1, dec.Header().WALSalt2); err != nil {
+			return info, fmt.Errorf("check previous wal generation end: %w", err)
+		} else if continued {
+			info.reason = "previous wal generation continued past last sync, snapshotting"
+			return info, nil
+		}
 
 		if detected, err := db.detectFullCheckpoint(ctx, [][2]uint32{{salt1, salt2}, {dec.Header().WALSalt1, dec.Header().WALSalt2}}); err != nil {
 			return info, fmt.Errorf("detect full checkpoint: %w", err)
@@ -1841,6 +1854,18 @@ func (db *DB) verifyWithExecutor(ctx context.Context, exec *syncExecutor) (info 
 	info.snapshotting = false
 
 	return info, nil
+}
+
+// walFrameHasSalt reports whether a complete WAL frame header exists at offset
+// and carries the given salt values.
+func (db *DB) walFrameHasSalt(offset int64, salt1, salt2 uint32) (bool, error) {
+	hdr, err := readWALFileAt(db.WALPath(), offset, WALFrameHeaderSize)
+	if errors.Is(err, io.EOF) || errors.Is(err, io.ErrUnexpectedEOF) {
+		return false, nil // no frame at this offset
+	} else if err != nil {
+		return false, err
+	}
+	return binary.BigEndian.Uint32(hdr[8:]) == salt1 && binary.BigEndian.Uint32(hdr[12:]) == salt2, nil
 }
 
 // lastPageMatch checks if the last page read in the WAL exists in the last LTX file.
